@@ -358,6 +358,12 @@ def run(ctx) -> None:
                          "gap": rng.choice(list(GAP_FUNCTIONS)), "solver": rng.choice(["greedy_worst", "greedy_worst", "greedy"]),
                          "seed": rng.randint(0, 10**6), "repetitions": 4, "limit": 16, "budget": None, "processes": [1]})
         ctx.count("full_length_lookahead_runs")
+    # always: full-length runs on hidden games with huge stand-alone worths (values >> remaining uncertainty)
+    for _ in range(3 if quick else 12):
+        run_config(ctx, {"n": 4, "generator": rng.choice(["noisy_factory", "xos", "graph_random"]), "computer": rng.choice(sut.SA_COMPUTERS),
+                         "gap": rng.choice(list(GAP_FUNCTIONS)), "solver": "largest", "seed": rng.randint(0, 10**6), "repetitions": 3,
+                         "limit": 16, "budget": None, "processes": [1], "offset": -1e6})
+        ctx.count("full_length_runs_on_offset_games")
     i = 0
     while not ctx.out_of_time(10.0):
         i += 1
